@@ -32,7 +32,7 @@ CONSTANTS Layouts,     \* set of page layouts: sequences of rows-per-page
 
 VARIABLES cfg, index, phys, lastIdx, lastPhys, serve, skip, want, ok, hist
 vars == <<cfg, index, phys, lastIdx, lastPhys, serve, skip, want, ok, hist>>
-view == <<cfg, index, phys, lastIdx, lastPhys, serve, skip, want, ok>>
+view == <<cfg, index, phys, lastIdx, lastPhys, serve, skip, want, ok>>   \* MaxOps is set beyond the diameter in the exhaustive configurations: the history never bounds them
 
 PageRows == cfg.pageRows
 NP       == Len(PageRows)
